@@ -17,22 +17,46 @@ namespace GitAi.Sys
 
 /-! ## 1. The history invariant over every sequence of operations -/
 
-/-- ghost state next to the model state -/
+/-- ghost state next to the model state; `stashHeads` remembers what HEAD was at each `git stash` -/
 structure RSpec where
   sp : Spec
   stash : List (List Nat × List (Nat × Nat)) := []
+  stashHeads : List (List Nat) := []
 
 def rspecStep (r : RSpec) (op : ROp) : RSpec :=
   match op with
-  | .base o => ⟨specStep r.sp o, r.stash⟩
+  | .base o => ⟨specStep r.sp o, r.stash, r.stashHeads⟩
+  | .stashPush =>
+    let r' := rstep ⟨r.sp.st, r.stash⟩ .stashPush
+    ⟨⟨r'.st, r.sp.g, r.sp.seen⟩, r'.stash, r.sp.st.head :: r.stashHeads⟩
+  | .stashPop ys =>
+    let r' := rstep ⟨r.sp.st, r.stash⟩ (.stashPop ys)
+    ⟨⟨r'.st, r.sp.g, r.sp.seen⟩, r'.stash, r.stashHeads.tail⟩
   | _ =>
     let r' := rstep ⟨r.sp.st, r.stash⟩ op
-    ⟨⟨r'.st, r.sp.g, r.sp.seen⟩, r'.stash⟩
+    ⟨⟨r'.st, r.sp.g, r.sp.seen⟩, r'.stash, r.stashHeads⟩
 
 def rspecRun (r : RSpec) (ops : List ROp) : RSpec := ops.foldl rspecStep r
 
-/-- what each operation needs. Stash push/pop are not part of the general induction (see
-    `stash_roundtrip_partial` and `regression_stash_upstream_above`). -/
+/-- every stashed entry holds the AI lines of its content, relative to HEAD as it was at push time -/
+def StashInv (g : Nat → Author) (seen : List Nat) : List (List Nat × List (Nat × Nat)) → List (List Nat) → Prop
+  | [], [] => True
+  | e :: es, hd :: hds => StashEntryOK g seen hd e ∧ StashInv g seen es hds
+  | _, _ => False
+
+theorem StashInv.mono {g g' : Nat → Author} {seen seen' : List Nat}
+    (hg : ∀ y ∈ seen, g' y = g y ∧ y ∈ seen') :
+    ∀ {es : List (List Nat × List (Nat × Nat))} {hds : List (List Nat)}, StashInv g seen es hds → StashInv g' seen' es hds
+  | [], [], _ => trivial
+  | _ :: _, _ :: _, h => ⟨h.1.mono hg, StashInv.mono hg h.2⟩
+  | [], _ :: _, h => h.elim
+  | _ :: _, [], h => h.elim
+
+/-- the combined invariant of the ghost run -/
+def RInv2 (root : List Nat) (r : RSpec) : Prop :=
+  RInv root r.sp ∧ StashInv r.sp.g r.sp.seen r.stash r.stashHeads
+
+/-- what each operation needs -/
 def ValidROp (root : List Nat) (r : RSpec) : ROp → Prop
   | .base .commit => CommitOK3 r.sp
   | .base o => ValidOp2 r.sp o
@@ -44,36 +68,63 @@ def ValidROp (root : List Nat) (r : RSpec) : ROp → Prop
   | .switchCarry l n h => SwitchOK root r.sp l n h
   | .switchMerge l n h ys => SwitchMergeOK root r.sp l n h ys
   | .aborted => True
-  | .stashPush => False
-  | .stashPop _ => False
+  | .stashPush => True
+  | .stashPop ys =>
+    match r.stash, r.stashHeads with
+    | (snap, _) :: _, hd :: _ => StashPopOK r.sp hd snap ys
+    | _, _ => True          -- nothing stashed: `git stash pop` fails and changes nothing
 
 def ValidROps (root : List Nat) : RSpec → List ROp → Prop
   | _, [] => True
   | r, op :: ops => ValidROp root r op ∧ ValidROps root (rspecStep r op) ops
 
-theorem rspecStep_inv (root : List Nat) (r : RSpec) (op : ROp) (h : RInv root r.sp) (hv : ValidROp root r op) :
-    RInv root (rspecStep r op).sp := by
+theorem rspecStep_inv (root : List Nat) (r : RSpec) (op : ROp) (h : RInv2 root r) (hv : ValidROp root r op) :
+    RInv2 root (rspecStep r op) := by
+  obtain ⟨h, hs⟩ := h
   cases op with
   | base o =>
+    refine ⟨?_, StashInv.mono (fun y hy => specStep_g_seen r.sp o y hy) hs⟩
     by_cases hc : o = .commit
     · subst hc; exact h.commit hv
     · have : ValidOp2 r.sp o := by cases o <;> first | exact hv | exact absurd rfl hc
       exact h.nocommit o hc this
-  | amend => exact h.amend hv
-  | reset k soft => exact h.reset k soft hv
-  | stashPush => exact hv.elim
-  | stashPop ys => exact hv.elim
+  | amend => exact ⟨h.amend hv, hs⟩
+  | reset k soft => exact ⟨h.reset k soft hv, hs⟩
+  | stashPush =>
+    obtain ⟨h1, saved, hst, he⟩ := h.stashPush r.stash
+    refine ⟨h1, ?_⟩
+    show StashInv r.sp.g r.sp.seen (stashPush ⟨r.sp.st, r.stash⟩).stash (r.sp.st.head :: r.stashHeads)
+    rw [hst]
+    exact ⟨he, hs⟩
+  | stashPop ys =>
+    match hst : r.stash, hhd : r.stashHeads, hs with
+    | [], [], _ =>
+      refine ⟨?_, ?_⟩
+      · show RInv root ⟨(stashPop ys ⟨r.sp.st, r.stash⟩).st, r.sp.g, r.sp.seen⟩
+        rw [hst]; exact h
+      · show StashInv r.sp.g r.sp.seen (stashPop ys ⟨r.sp.st, r.stash⟩).stash r.stashHeads.tail
+        rw [hst, hhd]; trivial
+    | (snap, saved) :: es, hd :: hds, hs' =>
+      have hv' : StashPopOK r.sp hd snap ys := by
+        simp only [ValidROp, hst, hhd] at hv; exact hv
+      refine ⟨?_, ?_⟩
+      · show RInv root ⟨(stashPop ys ⟨r.sp.st, r.stash⟩).st, r.sp.g, r.sp.seen⟩
+        rw [hst]; exact h.stashPop hd snap saved es ys hs'.1 hv'
+      · show StashInv r.sp.g r.sp.seen (stashPop ys ⟨r.sp.st, r.stash⟩).stash r.stashHeads.tail
+        rw [hst, hhd]; exact hs'.2
+    | [], _ :: _, hs' => exact hs'.elim
+    | _ :: _, [], hs' => exact hs'.elim
   | replay drop mid src news =>
     cases src with
-    | none => exact h.replay drop mid _ _ news hv
-    | some ln => obtain ⟨l, n⟩ := ln; exact h.replay drop mid l n news hv
-  | squash l n ys => exact h.squash l n ys hv
-  | switchCarry l n hd => exact h.switchCarry l n hd hv
-  | switchMerge l n hd ys => exact h.switchMerge l n hd ys hv
-  | aborted => exact h
+    | none => exact ⟨h.replay drop mid _ _ news hv, hs⟩
+    | some ln => obtain ⟨l, n⟩ := ln; exact ⟨h.replay drop mid l n news hv, hs⟩
+  | squash l n ys => exact ⟨h.squash l n ys hv, hs⟩
+  | switchCarry l n hd => exact ⟨h.switchCarry l n hd hv, hs⟩
+  | switchMerge l n hd ys => exact ⟨h.switchMerge l n hd ys hv, hs⟩
+  | aborted => exact ⟨h, hs⟩
 
-theorem rspecRun_inv (root : List Nat) (r : RSpec) (ops : List ROp) (h : RInv root r.sp)
-    (hv : ValidROps root r ops) : RInv root (rspecRun r ops).sp := by
+theorem rspecRun_inv (root : List Nat) (r : RSpec) (ops : List ROp) (h : RInv2 root r)
+    (hv : ValidROps root r ops) : RInv2 root (rspecRun r ops) := by
   induction ops generalizing r with
   | nil => exact h
   | cons op ops ih => exact ih (rspecStep r op) (rspecStep_inv root r op h hv.1) hv.2
@@ -106,33 +157,34 @@ theorem rspecRun_st (r : RSpec) (ops : List ROp) :
 
 /-- **blame follows the code.** From a clean repository, after any valid sequence of edits,
     checkpoints, staging, commits, amends, soft/mixed resets, rebases / cherry-picks (replays),
-    squash preparations, branch switches carrying uncommitted work (plain and `-m`) and aborted
-    operations, blame at HEAD reports for every line of HEAD
+    squash preparations, stash pushes and pops, branch switches carrying uncommitted work (plain and
+    `-m`) and aborted operations, blame at HEAD reports for every line of HEAD
     exactly its ghost author: session `s` iff `s` made the last substantive change to it. -/
 theorem blame_matches_ghost (root : List Nat) (g0 : Nat → Author) (hnd : root.Nodup)
     (hroot : ∀ y ∈ root, g0 y = none) (ops : List ROp)
-    (hv : ValidROps root ⟨cleanSpec root g0, []⟩ ops) :
-    let r := rspecRun ⟨cleanSpec root g0, []⟩ ops
+    (hv : ValidROps root ⟨cleanSpec root g0, [], []⟩ ops) :
+    let r := rspecRun ⟨cleanSpec root g0, [], []⟩ ops
     ∀ y ∈ r.sp.st.head, blame r.sp.st.log r.sp.st.notes y = r.sp.g y := by
   intro r
   have h0 : RInv root (cleanSpec root g0) :=
     ⟨cleanSpec_inv2 root g0 hnd, trivial, rfl, hroot, fun y hy => hy, hnd, by intro cp hcp; simp [cleanSpec] at hcp⟩
-  exact (rspecRun_inv root _ ops h0 hv).blame_head
+  have h00 : RInv2 root ⟨cleanSpec root g0, [], []⟩ := ⟨h0, trivial⟩
+  exact (rspecRun_inv root _ ops h00 hv).1.blame_head
 
 /-- **surviving lines keep their session; nothing else becomes AI.** Whatever valid operations
     (`ops`) are applied to a reachable state: a line that is in HEAD before and after is blamed the
     same before and after; and a line blamed on session `s` afterwards has `s` as its ghost author. -/
-theorem rewrite_preserves_attribution (root : List Nat) (r : RSpec) (h : RInv root r.sp) (ops : List ROp)
+theorem rewrite_preserves_attribution (root : List Nat) (r : RSpec) (h : RInv2 root r) (ops : List ROp)
     (hv : ValidROps root r ops) :
     let r' := rspecRun r ops
     (∀ y ∈ r.sp.st.head, y ∈ r'.sp.st.head →
         blame r'.sp.st.log r'.sp.st.notes y = blame r.sp.st.log r.sp.st.notes y) ∧
     (∀ y ∈ r'.sp.st.head, ∀ s, blame r'.sp.st.log r'.sp.st.notes y = some s → r'.sp.g y = some s) := by
   intro r'
-  have h' := rspecRun_inv root r ops h hv
+  have h' := (rspecRun_inv root r ops h hv).1
   refine ⟨fun y hy hy' => ?_, fun y hy s hs => ?_⟩
-  · rw [h'.blame_head y hy', h.blame_head y hy]
-    exact (rspecRun_g_seen r ops y (h.inv2.headSeen y hy)).1
+  · rw [h'.blame_head y hy', h.1.blame_head y hy]
+    exact (rspecRun_g_seen r ops y (h.1.inv2.headSeen y hy)).1
   · rw [← h'.blame_head y hy]; exact hs
 
 /-- **what a replay credits.** The crediting function of a rebase or cherry-pick is blame over the
@@ -157,10 +209,10 @@ theorem aborted_is_identity (r : RState) : rstep r .aborted = r := rfl
 
 /-! ## 3. Stash -/
 
-/-- **stash round trip (partial).** Push, then pop onto the same working-tree content: the combined
-    invariant is restored, so the next commit credits the popped AI lines. With changes to HEAD
-    between push and pop the popped claims are carried over through the stashed content (see the
-    regression example below); a general theorem for that case is not proved. -/
+/-- **stash round trip.** Push, then pop onto the same working-tree content: the combined invariant
+    is restored without any further hypothesis. (Pops after HEAD moved, or onto a merged content, are
+    covered by `RInv.stashPop` under `StashPopOK` and are ordinary operations of `blame_matches_ghost`;
+    see the regression example and the non-vacuity example below.) -/
 theorem stash_roundtrip_partial (root : List Nat) (sp : Spec) (h : RInv root sp)
     (stk : List (List Nat × List (Nat × Nat))) :
     let r := stashPop sp.st.work (stashPush ⟨sp.st, stk⟩)
@@ -200,7 +252,7 @@ example :
 
 /-- the hypotheses are satisfiable: an agent edit, a commit, an amend after a second agent edit, a
     soft reset with recommit, and a rebase of that commit onto an upstream that deleted a line -/
-example : ValidROps [1, 2, 3] ⟨cleanSpec [1, 2, 3] (fun _ => none), []⟩
+example : ValidROps [1, 2, 3] ⟨cleanSpec [1, 2, 3] (fun _ => none), [], []⟩
     [.base (.aiEdit 1 [1, 2, 9, 3]), .base .stageAll, .base .commit,
      .base (.aiEdit 2 [1, 8, 2, 9, 3]), .base .stageAll, .amend,
      .reset 1 true, .base .stageAll, .base .commit,
@@ -213,6 +265,18 @@ example : ValidROps [1, 2, 3] ⟨cleanSpec [1, 2, 3] (fun _ => none), []⟩
   · exact ⟨by decide⟩
   · exact ⟨⟨by decide, by decide⟩, by decide, by decide⟩
   · exact ⟨by decide, by decide, by decide, by decide, by decide⟩
+
+/-- stash push and pop are ordinary operations of the induction: the O4 history (a commit that inserts
+    a line at the top between push and pop) satisfies the hypotheses, so `blame_matches_ghost` applies -/
+example : ValidROps [1, 2, 3] ⟨cleanSpec [1, 2, 3] (fun _ => none), [], []⟩
+    [.base (.aiEdit 1 [1, 2, 9, 3]), .stashPush, .base (.humanEdit [7, 1, 2, 3]), .base .stageAll, .base .commit,
+     .stashPop [7, 1, 2, 9, 3], .base .stageAll, .base .commit] := by
+  refine ⟨?_, trivial, ?_, trivial, ?_, ?_, trivial, ?_, trivial⟩
+  · exact ⟨by decide, by decide⟩
+  · exact ⟨by decide, by decide⟩
+  · exact ⟨⟨by decide, by decide⟩, by decide, by decide⟩
+  · exact ⟨by decide, by decide, by decide⟩
+  · exact ⟨⟨by decide, by decide⟩, by decide, by decide⟩
 
 end GitAi.Sys
 
